@@ -436,3 +436,108 @@ func (n *normalizer) foldLeftUnused(cb *ast.BlockStmt) bool {
 	}
 	return false
 }
+
+// A deferred helper that makes exactly one call defers that call.
+//
+// `defer pool.release(x)` where release is `func (p *instancePool[T]) release(x T) { p.pool.Put(x) }` runs the
+// same Put, on the same operands, at the same moment as `defer p.pool.Put(x)`: the operands of a deferred call are
+// evaluated at the defer statement, and the helper only passes them on.  That holds when the inner call's
+// function and arguments are built from the helper's parameters by address arithmetic alone (fields of struct
+// values reached from a parameter, never a load through a pointer or interface field, never another call), which
+// is what is checked here.  The prefix binds the parameters where the defer statement stands.
+func (n *normalizer) deferThrough(d *ast.DeferStmt, st *inlState) ([]ast.Stmt, bool) {
+	call := d.Call
+	if n.expandable(call, st) != "" {
+		return nil, false
+	}
+	cal := n.staticCallee(call)
+	fd := n.decls[cal]
+	if fd == nil || fd.Body == nil || len(fd.Body.List) != 1 || isVariadicDecl(fd) {
+		return nil, false
+	}
+	es, isES := fd.Body.List[0].(*ast.ExprStmt)
+	if !isES {
+		return nil, false
+	}
+	inner, isCall := ast.Unparen(es.X).(*ast.CallExpr)
+	if !isCall || inner.Ellipsis.IsValid() {
+		return nil, false
+	}
+	params := map[types.Object]bool{}
+	addNames := func(fl *ast.FieldList) {
+		if fl == nil {
+			return
+		}
+		for _, f := range fl.List {
+			for _, nm := range f.Names {
+				if ob := n.info.Defs[nm]; ob != nil {
+					params[ob] = true
+				}
+			}
+		}
+	}
+	addNames(fd.Recv)
+	addNames(fd.Type.Params)
+	isParam := func(e ast.Expr) bool {
+		id, isId := ast.Unparen(e).(*ast.Ident)
+		return isId && params[n.info.Uses[id]]
+	}
+	// the path to the method: parameter, then fields of struct values only
+	var purePath func(e ast.Expr, root bool) bool
+	purePath = func(e ast.Expr, root bool) bool {
+		e = ast.Unparen(e)
+		if isParam(e) {
+			return true
+		}
+		sel, isSel := e.(*ast.SelectorExpr)
+		if !isSel {
+			return false
+		}
+		s := n.info.Selections[sel]
+		if s == nil || s.Kind() != types.FieldVal || s.Indirect() && !isParam(sel.X) {
+			return false
+		}
+		if _, isStruct := s.Type().Underlying().(*types.Struct); !isStruct {
+			return false
+		}
+		return purePath(sel.X, false)
+	}
+	fsel, isSel := ast.Unparen(inner.Fun).(*ast.SelectorExpr)
+	if !isSel {
+		return nil, false
+	}
+	ms := n.info.Selections[fsel]
+	if ms == nil || ms.Kind() != types.MethodVal || !purePath(fsel.X, true) {
+		return nil, false
+	}
+	for _, a := range inner.Args {
+		if isParam(a) {
+			continue
+		}
+		if tv, has := n.info.Types[a]; has && tv.Value != nil {
+			continue
+		}
+		return nil, false
+	}
+	if n.staticCallee(inner) != nil && n.expandable(inner, st) == "" {
+		return nil, false // the inner call would itself be expanded: not a plain call any more
+	}
+	prefix, _, ok := n.expandMode(call, st, true)
+	if !ok || len(prefix) == 0 {
+		return nil, false
+	}
+	blk, isBlk := prefix[len(prefix)-1].(*ast.BlockStmt)
+	if !isBlk || len(blk.List) == 0 {
+		return nil, false
+	}
+	last, isLast := blk.List[len(blk.List)-1].(*ast.ExprStmt)
+	if !isLast {
+		return nil, false
+	}
+	lc, isLC := ast.Unparen(last.X).(*ast.CallExpr)
+	if !isLC {
+		return nil, false
+	}
+	blk.List[len(blk.List)-1] = &ast.DeferStmt{Defer: d.Defer, Call: lc}
+	return prefix, true
+}
